@@ -175,6 +175,12 @@ func histMore(f []string, node func(string) *gtree.Node, massive bool) (string, 
 					// the pre-state is built by the harness itself: never outside its private scratch directory
 					continue
 				}
+				if strings.HasPrefix(kv[0], "l") {
+					// l<hex target>:<hex path> : a symbolic link (never given to the model; massive-vs-simple only)
+					os.MkdirAll(filepath.Dir(p), 0o755)
+					os.Symlink(unhex(kv[0][1:]), p)
+					continue
+				}
 				switch kv[0] {
 				case "d":
 					os.MkdirAll(p, 0o755)
